@@ -110,7 +110,8 @@ func (c *Client) Do(req *http.Request) (resp *http.Response, err error) {
 		}
 		return resp, err
 	}
-	if respUnauthorizedNegotiate(resp) {
+	if respUnauthorizedNegotiate(resp) && !strings.HasPrefix(req.Header.Get(HTTPHeaderAuthRequest), HTTPHeaderAuthResponseValueKey+" ") {
+		// Only authenticate once per request: if the server challenges a request that already carried a token return its response
 		err := SetSPNEGOHeader(c.krb5Client, req, c.spn)
 		if err != nil {
 			return resp, err
